@@ -252,6 +252,7 @@ where
             outgoing,
             incoming: incoming_rx,
             incomplete_transfer: None,
+            parked_transfer: None,
         };
 
         if let CreditMode::Auto(credit) = inner.credit_mode {
